@@ -1,4 +1,4 @@
-import OsacaVerif.Lemmas.A64Ident
+import OsacaVerif.Lemmas.A64ListCov
 import OsacaVerif.Lemmas.A64File
 /-
   C10 — AArch64 parser recovers every line and operand exactly as written.
@@ -153,36 +153,12 @@ example : pyInt0 (ofString "-0x1F") = some (-31) ∧ pyInt0 (ofString "010") = n
     showNat 4096 = ofString "4096" ∧ showHex true 48879 = ofString "BEEF" := by decide +kernel
 
 /-! ### register ranges -/
-theorem mapE_ok {α β : Type} (f : α → Except Err β) (g : α → β) (l : List α) (h : ∀ x ∈ l, f x = .ok (g x)) :
-    mapE f l = .ok (l.map g) := by
-  induction l with
-  | nil => rfl
-  | cons x l ih =>
-    simp [mapE, h x (by simp), ih (fun y hy => h y (by simp [hy]))]
-
-theorem rangeNames_eq (a k : Nat) : rangeNames a k = (List.range k).map (a + ·) := by
-  induction k generalizing a with
-  | zero => rfl
-  | succ k ih =>
-    rw [rangeNames, ih (a + 1), List.range_succ_eq_map]
-    simp [List.map_map, Function.comp_def]; intro x _; omega
-
-/-- member `n` of a range: a copy of the first register with the name replaced -/
-def rangeMember (ix : Option Txt) (first : Elem) (p : Txt) (n : Nat) : Reg :=
-  { pre := lower p, name := showNat n, shape := first.shape.map lower, lanes := first.lanes,
-    index := (match ix with | some i => some i | none => first.index), pred := none }
-
 /-- **range_expand** (∀ A ≤ B, ∀ first register, ∀ list index): `{rA - rB}` expands to exactly the
     registers `A, A+1, …, B` (B − A + 1 of them), each a copy of the first with its number replaced -/
 theorem range_expand (ix : Option Txt) (first : Elem) (p : Txt) (hp : first.pre = some p) (a b : Nat)
     (_hab : a ≤ b) :
-    expandRange ix first a b = .ok ((List.range (b + 1 - a)).map (fun i => rangeMember ix first p (a + i))) := by
-  have hinc : A64.rangeInclusive = 1 := by decide
-  unfold expandRange
-  rw [hinc, rangeNames_eq, mapE_ok _ (rangeMember ix first p)]
-  · simp [List.map_map, Function.comp_def]
-  · intro n _
-    cases ix <;> simp [processElem, processRegister, RegTok.ofElem, hp, rangeMember]
+    expandRange ix first a b = .ok ((List.range (b + 1 - a)).map (fun i => rangeMember ix first p (a + i))) :=
+  range_expand_any ix first p hp a b
 
 theorem range_expand_length (ix : Option Txt) (first : Elem) (p : Txt) (hp : first.pre = some p) (a b : Nat)
     (hab : a ≤ b) : ∃ rs, expandRange ix first a b = .ok rs ∧ rs.length = b - a + 1 := by
@@ -244,6 +220,10 @@ inductive CoveredKind : Bool → Bool → OpA → Prop where
       CoveredKind last fst (.reg (.vec p n lanes shape idx))
   | pred (last fst : Bool) (p n : Nat) (tail : PredTail) (hp : lowerC p = 112) (ht : PredTailOk tail) :
       CoveredKind last fst (.reg (.pred p n tail))
+  | list (last fst : Bool) (e0 : ElemA) (es : List ElemA) (idx : Option Nat) (hes : ∀ e ∈ e0 :: es, ElemOk e) :
+      CoveredKind last fst (.list (e0 :: es) idx)
+  | range (last fst : Bool) (first : ElemA) (b : Nat) (idx : Option Nat) (hf : ElemOk first) :
+      CoveredKind last fst (.range first b idx)
   | int (last fst : Bool) (i : IntA) : CoveredKind last fst (.int i)
   | flt (last fst : Bool) (hash neg : Bool) (ip fp : Txt) (e : Option (Nat × Nat × Txt)) (f : Option Nat)
       (hok : FltOk ip fp e f) : CoveredKind last fst (.flt hash neg ip fp e f)
@@ -262,6 +242,8 @@ theorem coveredKind_covered (last fst : Bool) (o : OpA) (h : CoveredKind last fs
   | alias _ _ t ht => exact covered_alias last fst t ht
   | vec _ _ p n lanes shape idx hp hl hs => exact covered_vec last fst p n lanes shape idx hp hl hs
   | pred _ _ p n tail hp ht => exact covered_pred last fst p n tail hp ht
+  | list _ _ e0 es idx hes => exact covered_list last fst e0 es idx hes
+  | range _ _ first b idx hf => exact covered_range last fst first b idx hf
   | int _ _ i => exact covered_int last fst i
   | flt _ _ hash neg ip fp e f hok => exact covered_flt last fst hash neg ip fp e f hok
   | shimm _ _ hash hex v op ah amt hop => exact covered_shimm last fst hash hex v op ah amt hop
@@ -284,9 +266,9 @@ theorem opsCovered_of_kinds (fst : Bool) (os : List OpA) (h : KindsOk fst os) : 
   TODO-FULL  a64_roundtrip: for every instruction AST `a` of the property's domain (`InstrOk a`, operands
   in valid order with every kind of `Spec.A64.OpA`) and every layout,
       parseLine (render a gaps) = .ok (expectLine a).
-  Proved below for the operand kinds of `CoveredKind`.  Not yet covered at text level: register lists
-  and ranges (their expansion is `range_expand`), identifiers with relocation / offset / `#`, and
-  identifier offsets inside memory references.
+  Proved below for the operand kinds of `CoveredKind`, which are all kinds of `OpA` except identifiers
+  written with a relocation (`:lo12:name`), an offset (`name+8`) or `#`, and identifier offsets inside
+  memory references (`[x0, #:lo12:name]`) — the design lists relocations as outside the compared AST.
   The general machinery (`roundtrip_covered`) is independent of the kinds: a further kind needs only its
   `CoveredOp` lemma (see `Lemmas/A64Vector.lean` for a single-piece and `Lemmas/A64MemOp.lean` for a
   multi-piece kind).
@@ -297,6 +279,8 @@ theorem opsCovered_of_kinds (fst : Bool) (os : List OpA) (h : KindsOk fst os) : 
       * scalar registers `[xwbhsdq]N` in either case (∀ N), the aliases `sp wsp xzr wzr` in either case,
       * vector / SVE registers `vN`, `vN.<lanes><shape>`, `zN.<shape>`, `…[idx]` (∀ N, lanes, shape, idx),
       * predicate registers `pN`, `pN/z`, `pN/m`, `pN.<shape>` (either case),
+      * register lists `{e0, e1, …}[idx]` (∀ lengths ≥ 1) and ranges `{first - last}[idx]` (∀ bounds) of
+        scalar / vector elements, expanded to their members,
       * integer immediates (∀ values; decimal or hexadecimal with lower/upper-case digits; with or
         without `#`; signed), floating-point immediates (mantissa, optional signed exponent, optional
         `f`), shifted immediates `#imm, lsl #n` (value `imm·2^n`, ∀ n),
